@@ -6,6 +6,12 @@ wt=/tmp/seed/$id
 cd $wt || exit 2
 git diff -- src > _seed/patch.confirmed.diff
 [ -s _seed/patch.confirmed.diff ] || { echo "no change applied in $wt"; exit 2; }
+# bring the worktree to the current /repo HEAD (genuine fixes may have landed since the sub-agent worked), keeping the seeded change applied
+head=$(git -C /repo rev-parse HEAD)
+if [ "$(git rev-parse HEAD)" != "$head" ]; then
+  git checkout -q -- src && git checkout -q --detach $head && git apply _seed/patch.confirmed.diff || { echo "seed does not apply to /repo HEAD $head"; exit 2; }
+  echo "--- worktree moved to /repo HEAD $head"
+fi
 echo "--- tests with the change:"; PYTHONPATH=$wt/src /venv/bin/python -m pytest -q -p no:cacheprovider 2>&1 | tail -1 | sed 's/\x1b\[[0-9;]*m//g'
 echo "--- demo with the change (expect exit 1):"; PYTHONPATH=$wt/src /venv/bin/python _seed/demo.py > /var/tmp/demo_with.out 2>&1; echo "rc=$?"; tail -2 /var/tmp/demo_with.out | cut -c1-200
 git apply -R _seed/patch.confirmed.diff
